@@ -1,7 +1,7 @@
 import ast
 import inspect
 from dataclasses import is_dataclass
-from typing import Any, List
+from typing import Any, Dict, List
 
 from func_adl.util_ast import lambda_build
 
@@ -87,7 +87,11 @@ def resolve_syntatic_sugar(a: ast.AST) -> ast.AST:
             return a
 
         def convert_call_to_dict(
-            self, a: ast.Call, node: ast.AST, sig_arg_names: List[str]
+            self,
+            a: ast.Call,
+            node: ast.AST,
+            sig_arg_names: List[str],
+            sig_defaults: Dict[str, Any] = {},
         ) -> ast.AST:
             """Translate a data class into a dictionary.
 
@@ -117,6 +121,10 @@ def resolve_syntatic_sugar(a: ast.AST) -> ast.AST:
             for name in sig_arg_names[len(arg_values) :]:
                 if name in arg_lookup:
                     arg_values.append(arg_lookup[name])
+                    arg_names.append(ast.Constant(value=name))
+                elif name in sig_defaults:
+                    # The constructor would bind the field to its declared default
+                    arg_values.append(ast.Constant(value=sig_defaults[name]))
                     arg_names.append(ast.Constant(value=name))
 
             for name in arg_lookup.keys():
@@ -151,14 +159,24 @@ def resolve_syntatic_sugar(a: ast.AST) -> ast.AST:
                     # We have a dataclass. Turn it into a dictionary
                     signature = inspect.signature(a.func.value)  # type: ignore
                     sig_arg_names = [p.name for p in signature.parameters.values()]
+                    sig_defaults = {
+                        p.name: p.default
+                        for p in signature.parameters.values()
+                        if isinstance(p.default, (str, int, float, bool))
+                    }
 
-                    return self.convert_call_to_dict(a, node, sig_arg_names)
+                    return self.convert_call_to_dict(a, node, sig_arg_names, sig_defaults)
 
                 elif hasattr(a.func.value, "_fields"):
                     # We have a named tuple. Turn it into a dictionary
                     arg_names = [n for n in a.func.value._fields]
+                    nt_defaults = {
+                        k: v
+                        for k, v in getattr(a.func.value, "_field_defaults", {}).items()
+                        if isinstance(v, (str, int, float, bool))
+                    }
 
-                    return self.convert_call_to_dict(a, node, arg_names)
+                    return self.convert_call_to_dict(a, node, arg_names, nt_defaults)
             return a
 
     return syntax_transformer().visit(a)
